@@ -85,6 +85,10 @@ def findings():
         return (widths == [5]) and np.array_equal(d, np.diag(M)), f"block widths used with Exact(bs=2) on a 5x5 operator: {widths}"
     probe("exact_bs_ignored", "informational: the bs argument of Exact is overwritten by min(100, n) (all columns of a 5x5 operator are "
           "sent in one block although bs=2 was requested)", bs_ignored, "diag(A5x5, 0, Exact(bs=2))")
+    for f in out:   # not a violation of the property (values are right): reported as an observation, never as a finding
+        if f["flag"] == "exact_bs_ignored":
+            f["got"] = f"observed={f['present']}; " + str(f["got"])
+            f["present"] = False
     return out
 
 
